@@ -35,7 +35,7 @@ def setup():
 
 
 OPS = ['finalize', 'unlock_enter', 'unlock_exit_ok', 'unlock_exit_raise', 'bind_x', 'parse_y', 'register', 'clear',
-       'hook_y7', 'hook_y8_other_spelling', 'hook_z', 'hook_invalid', 'hook_raises', 'hook_none',
+       'register_class_with_method', 'hook_y7', 'hook_y8_other_spelling', 'hook_z', 'hook_invalid', 'hook_raises', 'hook_none',
        'parse_unbound_macro', 'parse_placeholder', 'parse_required', 'bind_tuple_x', 'parse_block_z',
        'define_macro']
 UNIVERSE = ['c12.f.x', 'c12.f.y', 'c12.f.z']
@@ -85,6 +85,19 @@ class World:
     self.bad = set()         # {'macro','placeholder','required'} currently present in the config
     self.macro_defined = False
     self.counter = 0
+    # an (as yet unregistered) class one of whose methods is registered on its own
+    class KM:
+      def __init__(self, w=0):
+        self.w = w
+
+      def kmeth(self, v=0):
+        return v
+    KM.__module__ = 'c12'
+    KM.kmeth.__module__ = 'c12'
+    KM.kmeth.__qualname__ = 'KM.kmeth'
+    gin.register(KM.kmeth)
+    self.KM = KM
+    self.km_registered = False
 
   def ops(self):
     out = []
@@ -97,12 +110,15 @@ class World:
         continue
       if op == 'register' and self.nreg >= 2:
         continue
+      if op == 'register_class_with_method' and self.km_registered:
+        continue
       out.append(op)
     return out
 
   # ------------------------------------------------------------------ observation
   def observe(self):
-    obs = {'locked': gin.config_is_locked()}
+    obs = {'locked': gin.config_is_locked(),
+           'registry': sorted(n for n in cfg._REGISTRY._selector_map if n.startswith('c12.') and 'late' not in n)}
     for k in UNIVERSE:
       try:
         v = gin.query_parameter(k)
@@ -112,7 +128,8 @@ class World:
     return obs
 
   def expected(self):
-    obs = {'locked': self.locked}
+    obs = {'locked': self.locked,
+           'registry': sorted(['c12.f'] + (['c12.KM', 'c12.KM.kmeth'] if self.km_registered else ['c12.kmeth']))}
     for k in UNIVERSE:
       obs[k] = self.config.get(k)
     return obs
@@ -232,6 +249,13 @@ class World:
           return None
         late.__name__ = name
         gin.external_configurable(late, name=name, module='c12')
+      elif op == 'register_class_with_method':
+        mutator = True
+        if self.locked:
+          exp_out = 'RuntimeError'
+        else:
+          self.km_registered = True
+        gin.register(self.KM)
       elif op == 'clear':
         self.locked = False
         self.config.clear()
@@ -278,7 +302,7 @@ class World:
     if out == exp_out:
       if exp_out == 'RuntimeError' and op in ('bind_x', 'parse_y', 'bind_tuple_x', 'parse_block_z'):
         res.w('locked_bind_rejected')
-      if exp_out == 'RuntimeError' and op == 'register':
+      if exp_out == 'RuntimeError' and op in ('register', 'register_class_with_method'):
         res.w('locked_register_rejected')
       if op == 'unlock_exit_ok' and exp['locked']:
         res.w('unlock_restores_locked')
